@@ -168,6 +168,12 @@ fn chunk<T, V: ExactSizeIterator<Item = T>, F: Fn(T) -> usize>(
 ) {
     let announced = vals.len();
     let avail = m.len - m.pos.min(m.len);
+    if !m.nothing_left() {
+        assert!(
+            begin_idx == m.pos,
+            "C02 C03 C04: the reported begin index of a chunk is not the source position of its first element"
+        );
+    }
     m.on_some(begin_idx, announced.max(1).min(LMAX));
     assert!(announced >= 1, "C03 C16: a chunk pull returned an empty chunk");
     assert!(announced <= n, "C03: chunk longer than the requested size");
